@@ -363,7 +363,9 @@ def _misc_shard(arg):
               "executable('usethread', ['thr.%(e)s'], compile_options=[opts.pthread()], link_options=[opts.pthread()])\n"
               "extdir = directory('ext lib')\n"
               "executable('useext', ['extuser.%(e)s'], link_options=[opts.lib_dir(extdir), opts.lib('ext'), "
-              "opts.rpath_dir(extdir.path)])\n" % dict(e=ext))
+              "opts.rpath_dir(extdir.path)])\n"
+              "prebuilt = shared_library('ext lib/libext.so')\n"
+              "executable('useext2', ['extuser.%(e)s'], libs=[prebuilt])\n" % dict(e=ext))
     # a library that exists before configure: found through lib_dir + lib, loaded through rpath_dir
     os.makedirs(os.path.join(src, 'ext lib'))
     with open(os.path.join(root, 'ext.c'), 'w') as f:
@@ -387,7 +389,7 @@ def _misc_shard(arg):
         res.append(('pic/lib/pch/include', 'configure fails: ' + r.err[-300:]))
     else:
         for name, want in (('usepic', 'PIC=1'), ('usem', 'POW='), ('usepch', 'PCH=7'), ('useinc', 'INC=9'),
-                           ('usethread', 'THR=1'), ('useext', 'EXT=7')):
+                           ('usethread', 'THR=1'), ('useext', 'EXT=7'), ('useext2', 'EXT=7')):
             rc, out = bfg.run_tool(['make', name], bld, env)
             o = ''
             if rc == 0:
